@@ -305,6 +305,28 @@ CHECKS.update({
              '(low 64 bits of the network address zero); host:port and URL '
              'clauses are bounded, not proved; pyvc, z3.',
         ref='DESIGN.md section 4 C15'),
+    'C04': dict(
+        category='proof',
+        text='Proved: (1) the 35 documented keys, every format pattern '
+             'compiled for every key with DOTALL|IGNORECASE (the compilation '
+             'loop of the real module is executed by the engine); (2) the '
+             'body of mask_password with re.sub abstract and at most one '
+             'chosen key present (each of the 35): key-free message returned '
+             'unchanged with no substitution; otherwise all _2, then _1, then '
+             'wildcard patterns of that key only, chained, with the right '
+             'templates; (3) regular-language lemmas on the real pattern '
+             'strings: each of the 10 renderings of the property over its '
+             'value alphabet is matched in full by the responsible pattern, '
+             'and no pattern can match text that lacks its key. BOUNDED, not '
+             'proved: the end-to-end clause (exactly the value replaced, '
+             'secret absent, idempotence, several secrets) - leftmost-greedy '
+             'interaction of 35 x 12 sequential substitutions is outside the '
+             'regular-language lemmas; real function on 35 keys x 4 spellings '
+             'x 12 renderings x 16+3 secrets x contexts x masks.',
+        note='A-RE (re.sub semantics; only LANGUAGES are proved), '
+             'A-RE-UNIVERSE (code points <= 0x2FFFF), str.lower / substring '
+             'tests on it uninterpreted; pyvc, z3.',
+        ref='DESIGN.md section 4 C04'),
     'C05': dict(
         text='len(region.data) <= region.length is preserved by both capture '
              'methods for any chunk; every fixed-layout inspector has the '
